@@ -539,3 +539,33 @@ def scale_determine_spec(notes):
             if want <= asc or want <= desc:
                 res.append(name)
     return sorted(res)
+
+
+# ------------------------------------------------------------------ meters and values
+
+@primitive
+def is_pow2(v):
+    """v is one of 1, 2, 4, 8, ... (a float must be integer-valued)"""
+    if isinstance(v, bool):
+        return v is True
+    if isinstance(v, int):
+        return v >= 1 and (v & (v - 1)) == 0
+    if isinstance(v, float):
+        return v == v and v not in (float("inf"), float("-inf")) and v >= 1 and v == int(v) and \
+            (int(v) & (int(v) - 1)) == 0
+    return False
+
+
+@primitive
+def is_integral(v):
+    if isinstance(v, int):
+        return True
+    return isinstance(v, float) and v == v and v not in (float("inf"), float("-inf")) and v == int(v)
+
+
+@primitive
+def feq(a, b):
+    """equality of float-valued expressions: exact over the reals for the solver (float-as-real);
+    at run time within 4 ulp-ish relative tolerance, because IEEE rounding is not what the proof is about"""
+    import math
+    return a == b or math.isclose(a, b, rel_tol=1e-12, abs_tol=0.0)
